@@ -3,7 +3,7 @@
    Statements only. *)
 From Coq Require Import ZArith List Bool.
 From CP Require Import Core.Bytes Core.Result Prim.Mpint Spec.PL Spec.SshSpec Ssh.Record Lemmas.MpintLemmas Lemmas.SshLemmas.
-From CP Require Import Spec.Registry Lemmas.RegistrySsh.
+From CP Require Import Spec.Registry Lemmas.RegistrySsh Spec.SshMsgSpec Lemmas.SshMsgLemmas.
 From CPGen Require Import Tables.
 Open Scope Z_scope.
 
@@ -49,3 +49,37 @@ Proof. exact banner_length_formula. Qed.
 Theorem C07_code_points_match_registry :
   registry_agrees int_enum_members ssh_registry = true /\ registry_covers int_enum_members ssh_registry = true.
 Proof. exact ssh_code_points. Qed.
+
+(* transport-layer messages (RFC 4253 7.3, 8, 11; RFC 4419 3) written in the layout language of the RFC 4251 data types:
+   every field list is uniquely decodable - the decoder driven by the kinds recovers exactly the fields and the rest ... *)
+Theorem C07_layout_decodes : forall fs s, Forall field_ok fs -> dec_fields (map kind_of fs) (enc_fields fs ++ s) = Some (fs, s).
+Proof. exact dec_enc_fields. Qed.
+
+(* ... so two messages of the same shape never share an encoding, whatever follows them ... *)
+Theorem C07_layout_injective : forall fs fs' s s',
+  Forall field_ok fs -> Forall field_ok fs' -> map kind_of fs = map kind_of fs' ->
+  enc_fields fs ++ s = enc_fields fs' ++ s' -> fs = fs' /\ s = s'.
+Proof. exact enc_fields_injective. Qed.
+
+(* ... and DISCONNECT, UNIMPLEMENTED, NEWKEYS, KEXDH_INIT, KEXDH_REPLY, KEX_DH_GEX_REQUEST / GROUP / INIT / REPLY each decode to
+   themselves through the dispatch on the message number of their key-exchange context *)
+Theorem C07_transport_messages_decode :
+  (forall r d l s, u32 r -> str d -> str l ->
+     dec_msg kinds_init (enc_fields (msg_disconnect r d l) ++ s) = Some (msg_disconnect r d l, s)) /\
+  (forall q s, u32 q -> dec_msg kinds_init (enc_fields (msg_unimplemented q) ++ s) = Some (msg_unimplemented q, s)) /\
+  (forall s, dec_msg kinds_kexdh (enc_fields msg_newkeys ++ s) = Some (msg_newkeys, s) /\
+             dec_msg kinds_gex (enc_fields msg_newkeys ++ s) = Some (msg_newkeys, s)) /\
+  (forall e s, mp e -> dec_msg kinds_kexdh (enc_fields (msg_kexdh_init e) ++ s) = Some (msg_kexdh_init e, s)) /\
+  (forall ks f sig s, str ks -> mp f -> str sig ->
+     dec_msg kinds_kexdh (enc_fields (msg_kexdh_reply ks f sig) ++ s) = Some (msg_kexdh_reply ks f sig, s)) /\
+  (forall mn n mx s, u32 mn -> u32 n -> u32 mx ->
+     dec_msg kinds_gex (enc_fields (msg_gex_request mn n mx) ++ s) = Some (msg_gex_request mn n mx, s)) /\
+  (forall p g s, mp p -> mp g -> dec_msg kinds_gex (enc_fields (msg_gex_group p g) ++ s) = Some (msg_gex_group p g, s)) /\
+  (forall e s, mp e -> dec_msg kinds_gex (enc_fields (msg_gex_init e) ++ s) = Some (msg_gex_init e, s)) /\
+  (forall ks f sig s, str ks -> mp f -> str sig ->
+     dec_msg kinds_gex (enc_fields (msg_gex_reply ks f sig) ++ s) = Some (msg_gex_reply ks f sig, s)).
+Proof. exact ssh_messages_decode. Qed.
+
+(* the two's complement value of the RFC mpint of a non-negative number is that number *)
+Theorem C07_mpint_value : forall z, 0 <= z -> mpint_value (mpint_payload z) = z.
+Proof. exact mpint_value_payload. Qed.
